@@ -29,7 +29,7 @@ def fm_byte(data, clock=0xFF):
 
 
 def fm_track(sectors, gap1=16, gap2=11, gap3=21, sync=6, gap4=40, index_mark=True, size_code=1,
-             drop_data_mark=(), bad_data_crc=(), bad_id_crc=(), deleted=()):
+             drop_data_mark=(), bad_data_crc=(), bad_id_crc=(), deleted=(), tail=8):
     """sectors: list of (cyl, head, rec, data bytes) in physical order.  Returns list of cell bits.
     drop_data_mark/bad_data_crc/bad_id_crc/deleted: sets of indices into `sectors`."""
     bits = []
@@ -43,10 +43,12 @@ def fm_track(sectors, gap1=16, gap2=11, gap3=21, sync=6, gap4=40, index_mark=Tru
         put(b'\xfc', 0xD7)
     put(b'\xff' * gap1)
     spans = []
-    for i, (c, h, r, data) in enumerate(sectors):
+    for i, sec in enumerate(sectors):
+        c, h, r, data = sec[:4]
+        sc = sec[4] if len(sec) > 4 else size_code
         start = len(bits)
         put(b'\x00' * sync)
-        idf = bytes([0xFE, c, h, r, size_code])
+        idf = bytes([0xFE, c, h, r, sc])
         crc = crc16(idf)
         if i in bad_id_crc:
             crc ^= 0x0101
@@ -70,7 +72,7 @@ def fm_track(sectors, gap1=16, gap2=11, gap3=21, sync=6, gap4=40, index_mark=Tru
         put(b'\xff' * gap3)
         spans.append({'start': start, 'id_end': id_end, 'dm': dm_start, 'data': data_start, 'data_end': data_end,
                       'end': len(bits)})
-    put(b'\xff' * 8)
+    put(b'\xff' * tail)
     return bits, spans
 
 
@@ -93,7 +95,7 @@ C2_SYNC = [int(x) for x in '0101001000100100']      # 0x5224: C2 with a missing 
 
 
 def mfm_track(sectors, gap1=50, gap2=22, gap3=40, sync=12, gap4=80, index_mark=True, size_code=1,
-              bad_data_crc=(), bad_id_crc=(), deleted=(), drop_data_sync=()):
+              bad_data_crc=(), bad_id_crc=(), deleted=(), drop_data_sync=(), tail=8):
     bits = []
     state = {'p': 0}
 
@@ -112,11 +114,13 @@ def mfm_track(sectors, gap1=50, gap2=22, gap3=40, sync=12, gap4=80, index_mark=T
         put(b'\xfc')
     put(b'\x4e' * gap1)
     spans = []
-    for i, (c, h, r, data) in enumerate(sectors):
+    for i, sec in enumerate(sectors):
+        c, h, r, data = sec[:4]
+        sc = sec[4] if len(sec) > 4 else size_code
         start = len(bits)
         put(b'\x00' * sync)
         put_sync(A1_SYNC)
-        idf = bytes([0xFE, c, h, r, size_code])
+        idf = bytes([0xFE, c, h, r, sc])
         crc = crc16(b'\xa1\xa1\xa1' + idf)
         if i in bad_id_crc:
             crc ^= 0x0101
@@ -140,7 +144,7 @@ def mfm_track(sectors, gap1=50, gap2=22, gap3=40, sync=12, gap4=80, index_mark=T
         put(b'\x4e' * gap3)
         spans.append({'start': start, 'id_end': id_end, 'dm': dm_start, 'data': data_start, 'data_end': data_end,
                       'end': len(bits)})
-    put(b'\x4e' * 8)
+    put(b'\x4e' * tail)
     return bits, spans
 
 
@@ -177,7 +181,7 @@ def revbits(b):
 
 # ---------------------------------------------------------------- HFE
 def hfe_image(sides, encoding, version=1, pad_tracks=True, ntracks=None, lut_block=1, first_track_block=2,
-              opcode_streams=None):
+              opcode_streams=None, lut_exact=False):
     """sides: list (1 or 2) of lists of per-track byte strings (already packed LSB-first, i.e. as they
     appear in the file for that side).  encoding: 'FM' | 'MFM'.
     opcode_streams: if given, same shape as sides but the byte strings are used verbatim (v3 streams)."""
@@ -223,7 +227,9 @@ def hfe_image(sides, encoding, version=1, pad_tracks=True, ntracks=None, lut_blo
                 # unpadded: the final block of each side is short; side 1 data would be misplaced, so the
                 # unpadded form is only generated for one-sided images
                 tr += c0
-        struct.pack_into('<HH', lut, 4 * t, block, len(tr))
+        # lut_exact: the LUT carries the real amount of track data (2 x the longer side), as HxC writes it,
+        # which need not be a multiple of 512; the data in the file is still stored in whole 512-byte blocks
+        struct.pack_into('<HH', lut, 4 * t, block, 2 * n if lut_exact else len(tr))
         if len(tr) % 512:
             tr += b'\x00' * (512 - len(tr) % 512)
         body += tr
@@ -291,7 +297,7 @@ def disc_to_tracks(surface, ntracks, spt, head, encoding, order=None, **kw):
     return out
 
 
-def hfe_from_surfaces(surfaces, ntracks, spt, encoding, version=1, order=None, pad_tracks=True, **kw):
+def hfe_from_surfaces(surfaces, ntracks, spt, encoding, version=1, order=None, pad_tracks=True, lut_exact=False, **kw):
     sides = []
     for head, surf in enumerate(surfaces):
         trs = disc_to_tracks(surf, ntracks, spt, head, encoding, order, **kw)
@@ -299,7 +305,7 @@ def hfe_from_surfaces(surfaces, ntracks, spt, encoding, version=1, order=None, p
             sides.append([pack_lsb_first(fm_to_hfe_cells(b)) for b, _, _ in trs])
         else:
             sides.append([pack_lsb_first(b) for b, _, _ in trs])
-    return hfe_image(sides, encoding, version, pad_tracks)
+    return hfe_image(sides, encoding, version, pad_tracks, lut_exact=lut_exact)
 
 
 def hxcmfm_from_surfaces(surfaces, ntracks, spt, order=None, **kw):
